@@ -619,6 +619,70 @@ _ONITER_PARAMS = ("{SS X OS BUF LOG CB SCB : Type} (N : nat) (collect1 : X -> SS
                   "(cnt : Z) (ss : SS) (pol : X) (opt : OS) (cbs : CB) (k : kpath)")
 
 
+# ------------------------------------------------------------------------------------------------ C10: learn()
+def _learn_state(term):
+    """an algorithm state as ONE opaque value `term`: fields are projections, with_callback_states is a setter"""
+    t = term
+
+    def with_cb(ex, n, a, k):
+        if len(a) != 1 or k or not isinstance(a[0], Sc):
+            fail(n, "with_callback_states form")
+        return _learn_state(f"(st_with_cb {t} {a[0].t})")
+    return Obj({"@name": Sc("O", t), "callback_state": Sc("O", f"(st_cb {t})"), "policy": Sc("O", f"(st_pol {t})"),
+                "iteration_count": Sc("O", f"(st_count {t})"), "opt_state": Sc("O", f"(st_opt {t})"),
+                "step_state": Obj({"callback_state": Sc("O", f"(st_scb {t})"), "@name": Sc("O", f"(st_ss {t})")}, "step_state"),
+                "with_callback_states": Prim(with_cb)}, "alg_state")
+
+
+def _learn_bind():
+    def reset(ex, n, a, k):
+        if len(a) != 2 or set(k) != {"key", "callback"}:
+            fail(n, "reset call form")
+        return _learn_state(f"(a_reset {k['key'].t})")
+
+    def iteration(ex, n, a, k):
+        if len(a) != 1 or set(k) != {"key", "callback"} or not isinstance(a[0], Obj):
+            fail(n, "iteration call form")
+        return _learn_state(f"(a_iter {a[0].fields['@name'].t} {k['key'].t})")
+
+    def tctx(ex, n, a, k):
+        names = ["state", "step_state", "env", "policy", "total_timesteps", "iteration_count", "opt_state", "algorithm", "locals"]
+        f = dict(zip(names, a)); f.update(k)
+        if set(f) != set(names):
+            fail(n, "TrainingContext form")
+        return Obj(f, "TrainingContext")
+
+    def cb(which):
+        def f(ex, n, a, k):
+            if a or set(k) != {"ctx", "key"}:
+                fail(n, f"{which} call form")
+            c = k["ctx"].fields
+            return Sc("O", f"({which} {c['state'].t} {c['step_state'].t} {c['policy'].t} {k['key'].t})")
+        return Prim(f)
+    selfo = Obj({"num_envs": Z("N"), "num_steps": Z("T"), "reset": Prim(reset), "iteration": Prim(iteration),
+                 "consolidate_callbacks": Prim(lambda ex, n, a, k: a[0] if len(a) == 1 and not k else fail(n, "consolidate_callbacks form")),
+                 "@name": O("algo")}, "algo")
+    selfo.fields["num_iterations"] = _method("algorithm/on_policy.py", "AbstractOnPolicyAlgorithm", "num_iterations", selfo)
+    selfo.fields["num_iterations"].closure.scope = {}
+    return {"self": selfo, "env": O("env"), "policy": O("pol0"), "total_timesteps": Z("total"), "key": K("k"),
+            "callback": Obj({"on_training_start": cb("cb_start"), "on_training_end": cb("cb_end"), "@name": O("cb")}, "callback"),
+            "@TrainingContext": Prim(tctx), "@locals": Prim(lambda ex, n, a, k: Static("locals"))}
+
+
+def _p_filter_scan_state(ex, n, args, kwargs):
+    """filter_scan(lambda s, k: (self.iteration(s, ...), None), state, keys) on an algorithm state that is ONE opaque value"""
+    if len(args) != 3 or kwargs or not isinstance(args[0], Closure) or not (isinstance(args[2], Vec) and args[2].ety == "K"):
+        fail(n, "filter_scan form")
+    init = args[1]
+    if not (isinstance(init, Obj) and init.name == "alg_state"):
+        fail(n, "filter_scan over something else than the algorithm state")
+    out = ex.invoke(args[0], [_learn_state("c__"), Sc("K", "k__")], {}, n)
+    if not (isinstance(out, tuple) and len(out) == 2 and isinstance(out[0], Obj) and isinstance(out[1], Static) and out[1].v is None):
+        fail(n, "scan body must return (state, None)")
+    T = f"(fold_left (fun c__ k__ => {out[0].fields['@name'].t}) {materialise(args[2])} {init.fields['@name'].t})"
+    return (_learn_state(T), Static(None))
+
+
 def _step_out(res, ex):
     if not (isinstance(res, tuple) and len(res) == 6):
         raise TranslateError("step no longer returns (state, observation, reward, terminal, truncate, info)")
@@ -873,6 +937,10 @@ KERNELS = {
                    "{X : Type} (interval count : nat) (online target : X)", _dqn_periter_out, prims=_SCHED_PRIMS),
             Kernel("polyak", "algorithm/sac.py", None, "_soft_update_targets", _polyak_bind,
                    "(tau q1 t1 q2 t2 : R)", _polyak_out, prims=_SCHED_PRIMS),
+            Kernel("learn", "algorithm/base_algorithm.py", "AbstractAlgorithm", "learn", _learn_bind,
+                   "{ST X CB SCB : Type} (a_reset : kpath -> ST) (a_iter : ST -> kpath -> ST) (st_with_cb : ST -> CB -> ST) (st_cb : ST -> CB) (st_scb : ST -> SCB) "
+                   "(st_pol : ST -> X) (cb_start cb_end : CB -> SCB -> X -> kpath -> CB) (N T total : Z) (k : kpath)",
+                   lambda res, ex: [("policy", "X", term_of(res))], prims={"filter_scan": Prim(_p_filter_scan_state)}),
             Kernel("sactrain", "algorithm/sac.py", "SAC", "sac_train", _sactrain_bind,
                    "{X : Type} (autotune : bool) (freq count : nat) (policy policy' opt opt' qf1 qf1' qf2 qf2' q_opt q_opt' alpha_opt alpha_opt' : X) (la la' : R)",
                    _sactrain_out)],
@@ -961,7 +1029,7 @@ def coq_text(pid, imports=()):
     return "\n".join(parts)
 
 
-IMPORTS = {"C19": ("Logging",), "C06": ("Replay",), "C01": ("Env",), "C13": ("Env",), "C04": ("Env", "OnPolicy"), "C05": ("Env", "OnPolicy", "Replay", "OffPolicy"), "C20": ("Gait",), "C11": ("Env", "Observers")}
+IMPORTS = {"C10": ("Env",), "C19": ("Logging",), "C06": ("Replay",), "C01": ("Env",), "C13": ("Env",), "C04": ("Env", "OnPolicy"), "C05": ("Env", "OnPolicy", "Replay", "OffPolicy"), "C20": ("Gait",), "C11": ("Env", "Observers")}
 
 
 def generate(pid, coq_dir: Path):
